@@ -1,6 +1,7 @@
 import WhVerif.Util.Proto
 import WhVerif.Model.C07
 import WhVerif.Spec.C07
+import WhVerif.Model.C07Pipe
 namespace WhVerif.Driver.C07
 open Lean WhVerif.Proto WhVerif.C07
 
@@ -17,6 +18,47 @@ def outJson : Outcome → Json
   | .misuse => Json.str "misuse"
   | .outOfFuel => Json.str "outOfFuel"
   | .ok sel => ofNatList (sortNat sel)
+
+/-- a read of a sample's read set: `[source_id, [positions], [qualities]]` -/
+def parseSRead (j : Json) : Option SRead := do
+  match (← asArr? j) with
+  | [s, p, q] => some ⟨← asNat? s, ← natList? p, ← intList? q⟩
+  | _ => none
+
+def stageErrJson : StageErr → Json
+  | .valueError => Json.str "ValueError"
+  | .misuse => Json.str "misuse"
+  | .outOfFuel => Json.str "outOfFuel"
+
+def dedupJson (l : List Json) : List Json :=
+  l.foldr (fun o acc => if acc.any (fun x => x.compress == o.compress) then acc else o :: acc) []
+
+def handlePipe (op : String) (j : Json) : Option Json :=
+  if op == "c07.stage" then
+    -- the per-sample stage of `whatshap phase`: which reads are candidates, and every selection the stage can return
+    -- (all tie choices of the abstract queue; `enumerate` = false: only the first one)
+    match (getList? j "reads").bind (·.mapM parseSRead), getNat? j "cap", getNatList? j "pref_ids", getBool? j "enumerate" with
+    | some rs, some cap, some prefIds, some enumerate =>
+      let cands := candidates rs
+      let keep := (List.range rs.length).filter (fun i => longEnough (rs.getD i default))
+      let css := if enumerate then explore true (cands.map (SRead.toRead prefIds)) cap true else [[]]
+      let outs := css.map (fun cs => match sampleStage rs cap prefIds cs with
+        | .ok o => Json.mkObj [("sel", ofNatList o.selIdx), ("n_selected", ofNat o.selected.length)]
+        | .error e => stageErrJson e)
+      some (Json.mkObj [("candidates", ofNatList keep), ("outcomes", Json.arr (dedupJson outs).toArray)])
+    | _, _, _, _ => some badInput
+  else if op == "c07.share" then
+    match getInt? j "k", getNat? j "m" with
+    | some k, some m => some (Json.mkObj [("cap", ofNat (perSampleCapInt k m)), ("accepted", Json.bool (capAccepted k))])
+    | _, _ => some badInput
+  else if op == "c07.merged" then
+    -- span counts of the merged family read set at the given positions
+    match (getList? j "selected").bind (·.mapM (fun m => (asArr? m).bind (·.mapM parseSRead))), getNatList? j "positions" with
+    | some sels, some qs =>
+      let os : List SampleOut := sels.map (fun sel => ⟨[], [], sel⟩)
+      some (ofNatList (qs.map (mergedCount os)))
+    | _, _ => some badInput
+  else none
 
 def handle (op : String) (j : Json) : Option Json :=
   if op == "c07.outcomes" then
@@ -42,5 +84,5 @@ def handle (op : String) (j : Json) : Option Json :=
       let P := positions reads
       some (ofList (fun r => let s := initScore P r; ofIntList [s.a, s.b, s.q]) reads)
     | none => some badInput
-  else none
+  else handlePipe op j
 end WhVerif.Driver.C07
